@@ -133,7 +133,20 @@ class LeanSide:
         ns = []
         if not os.path.exists(pf):
             return out
+        depth = 0   # nesting depth of /- ... -/ block comments (docstrings included): text inside is not code
         for i, line in enumerate(open(pf), 1):
+            code = ""
+            j = 0
+            while j < len(line):
+                if line.startswith("/-", j):
+                    depth += 1; j += 2
+                elif line.startswith("-/", j) and depth > 0:
+                    depth -= 1; j += 2
+                else:
+                    if depth == 0:
+                        code += line[j]
+                    j += 1
+            line = code.split("--", 1)[0] if depth == 0 or code.strip() else code
             m = re.match(r"\s*namespace\s+(\S+)", line)
             if m:
                 ns.append(m.group(1)); continue
